@@ -252,7 +252,15 @@ func pairScenes() []Desc {
 			Lights: []DLight{}, Kinds: []string{}, Risk: []string{}}
 	}
 	var out []Desc
+	// alpha mode alone (a cutoff is only legal with MASK, so both sides drop it)
+	noCut := func(m *DMat) { m.AMode, m.Cutoff = 3, -1 }
+	pre := map[string]func(m *DMat){"amode-only": noCut, "amode-nil": noCut}
+	muts = append(muts, mut{"amode-only", func(m *DMat) { m.AMode = 1 }}, mut{"amode-nil", func(m *DMat) { m.AMode = 0 }})
 	for i, mu := range muts {
+		base := clone(base)
+		if f, ok := pre[mu.name]; ok {
+			f(&base)
+		}
 		other := clone(base)
 		mu.f(&other)
 		first, second := 1, 2
